@@ -265,10 +265,14 @@ where
             // 0/0 while the running weight sum is still zero).
             continue;
         }
+        let previous_weight_sum = weight_sum;
         weight_sum += w;
         let x_minus_mean = x - mean;
         mean += (w / weight_sum) * x_minus_mean;
-        s += w * x_minus_mean * (x - mean);
+        // `x - mean` after the update equals `x_minus_mean * previous_weight_sum / weight_sum`;
+        // written that way it cannot change sign (or vanish) when the running weight sum
+        // absorbs a much lighter weight, which made the variance negative.
+        s += (w * (previous_weight_sum / weight_sum)) * x_minus_mean * x_minus_mean;
     }
     Ok(s / (weight_sum - ddof))
 }
